@@ -8,7 +8,7 @@
      texts  : Seq([lo, hi])             absolute byte ranges of the text blobs (trees, windows) for byte flips
      toks   : Seq(tok)                  the data tokens (rendered documents only; <<>> for a real file)
    A fault is a record [op |-> ..]; the harness applies a list of faults to the base in order:
-     set{line,val}  replace the value of header line `line`;  del{line};  dup{line};  nonutf8{line};  mbchar{line,at,w}
+     set{line,val}  replace the value of header line `line`;  del{line};  dup{line};  nonutf8{line};  mbchar{line,at,w};  key{line,how}
      swap{a,b}      exchange the values of two header lines
      cut{at}        keep only the first `at` bytes of the file
      flip{at,ch}    replace the byte at absolute offset `at` by character ch
@@ -55,6 +55,9 @@ Utf8Faults(b) == {[op |-> "nonutf8", line |-> i] : i \in {i \in Lines(b) : b.kv[
 \* valid UTF-8 that is not ASCII: a 2- or 3-byte character where the grammar expects a digit, a boolean, a colon or a name
 MbFaults(b) == {[op |-> "mbchar", line |-> i, at |-> a, w |-> w] :
                    i \in {i \in Lines(b) : b.kv[i].kind # "sec"}, a \in {"first", "before", "last", "key", "name"}, w \in {2, 3}}
+\* the key of a line rewritten: NAME]SUB[, ][, NAME[SUB, NAMESUB], NAME[[SUB], NAME[SUB]], NAME[], [SUB], NAME]SUB[SUB], NAME[SUB]x
+KeyFaults(b) == {[op |-> "key", line |-> i, how |-> h] : i \in {i \in Lines(b) : b.kv[i].kind # "sec"},
+                    h \in {"swap", "only", "open", "close", "dopen", "dclose", "empty", "noname", "late", "trail"}}
 RangeLines(b) == {i \in Lines(b) : b.kv[i].kind = "range"}
 SwapFaults(b) == UNION { {[op |-> "swap", a |-> i, b |-> j] : j \in RangeLines(b) \cap {i + 1, i + 2}} : i \in RangeLines(b) }
 CutPoints(b) == ({0} \cup UNION { {c - 1, c, c + 1} : c \in {b.cuts[i] : i \in 1..Len(b.cuts)} }) \cap 0..(b.total - 1)
@@ -67,6 +70,6 @@ FlipFaults(b, G) == {[op |-> "flip", at |-> p, ch |-> FlipChars[c]] : p \in Flip
 U32Idx(b) == {i \in 1..Len(b.toks) : b.toks[i].t = "u32"}
 TokFaults(b) == {[op |-> "toku32", i |-> i, v |-> v] : i \in U32Idx(b), v \in {0, 7, 2147483647}}
                 \cup {[op |-> "tokdel", i |-> i] : i \in {i \in 1..Len(b.toks) : i <= 3 \/ i >= Len(b.toks) - 1 \/ b.toks[i].t = "txt"}}
-Singles(b, G) == SetFaults(b) \cup DelFaults(b) \cup DupFaults(b) \cup Utf8Faults(b) \cup MbFaults(b) \cup SwapFaults(b)
+Singles(b, G) == SetFaults(b) \cup DelFaults(b) \cup DupFaults(b) \cup Utf8Faults(b) \cup MbFaults(b) \cup KeyFaults(b) \cup SwapFaults(b)
                  \cup CutFaults(b) \cup FlipFaults(b, G) \cup TokFaults(b)
 =============================================================================
